@@ -7,6 +7,7 @@ import (
 	"github.com/drand/drand/v2/zzverif/engdkgrun"
 	"github.com/drand/drand/v2/zzverif/engnode"
 	"github.com/drand/drand/v2/zzverif/engsecrecy"
+	"github.com/drand/drand/v2/zzverif/engstore"
 	"github.com/drand/drand/v2/zzverif/engsync"
 	"github.com/drand/drand/v2/zzverif/engtime"
 	"github.com/drand/drand/v2/zzverif/extract"
@@ -21,5 +22,7 @@ func main() {
 		"dkgrun":  engdkgrun.Run,
 		"secrecy": engsecrecy.Run,
 		"crash":   engcrash.Run,
+		"store":   engstore.RunStore,
+		"stack":   engstore.RunStack,
 	})
 }
